@@ -18,6 +18,7 @@ package c11
 import (
 	"encoding/json"
 	"fmt"
+	"os"
 	"sort"
 	"strconv"
 	"strings"
@@ -929,6 +930,7 @@ func genStale(r *vh.Rand) schedCase {
 // ------------------------------------------------------------ Run
 
 func Run(c *vh.Ctx) {
+	factsLine := ""
 	m, err := vh.StartModel(c.ModelPath)
 	if err != nil {
 		c.Note("running without the Lean model: %v", err)
@@ -941,10 +943,11 @@ func Run(c *vh.Ctx) {
 		}()
 		if f, err := m.Ask("facts"); err == nil {
 			c.Note("regenerated facts: %s", f)
+			factsLine = f
 		}
 	}
 	rn := &runner{c: c, m: m}
-	c.Res.Rule = "a scripted case (step language or value catalogue) is non-trivial if it has ≥ 2 requests whose turns interleave; a load case if ≥ 2 requests were in flight; distinct = different programs/data/schedule"
+	c.Res.Rule = "a scripted case (step language, value catalogue or depth catalogue) is non-trivial if it has ≥ 2 requests whose turns interleave; a load case if ≥ 2 requests were in flight; distinct = different programs/data/schedule"
 
 	if len(c.ReplayRaw) > 0 {
 		var probe struct {
@@ -954,6 +957,8 @@ func Run(c *vh.Ctx) {
 		switch probe.Kind {
 		case "vals":
 			rn.replayValCase(c.ReplayRaw)
+		case "flight":
+			rn.replayFlightCase(c.ReplayRaw)
 		case "load":
 			var lc loadCase
 			if err := json.Unmarshal(c.ReplayRaw, &lc); err != nil {
@@ -986,8 +991,17 @@ func Run(c *vh.Ctx) {
 		}
 	}
 
+	if os.Getenv("C11_ONLY") == "flight" { // development aid: only the in-flight stream
+		flightStreams(rn, factsLine)
+		depthLoadStreams(c, flightLimits(factsLine))
+		return
+	}
+
 	// 0. the value catalogue: every kind of value created before a gate and used after it
 	valueStreams(rn)
+
+	// 0b. the in-flight stream: requests parked while they hold frames, sums around and beyond every limit
+	flightStreams(rn, factsLine)
 
 	// 1. the negation witnesses of the property file, one server each
 	for _, w := range witnesses() {
@@ -1007,7 +1021,7 @@ func Run(c *vh.Ctx) {
 	batch(enumerate(sgAlpha, true), "known", 16)
 	batch(enumerateSame(sgAlpha), "known", 16)
 	c.Res.Exhaustive = true
-	c.Res.ExhaustiveWhat = fmt.Sprintf("two requests A = parse·x·gate·y·write, B = parse·[gate]·z·write for all x,y,z of the superglobal-free alphabet %v and of the superglobal alphabet %v, every gate-level interleaving; the same with one closure serving both requests (A = B = parse·x·gate·y·write, different data); the value catalogue (%d kinds of values created before a gate and used after it): per kind two requests with different data on the same route, every gate-level interleaving, plus three requests in three fixed orders", mainAlpha, sgAlpha, len(valKinds()))
+	c.Res.ExhaustiveWhat = fmt.Sprintf("two requests A = parse·x·gate·y·write, B = parse·[gate]·z·write for all x,y,z of the superglobal-free alphabet %v and of the superglobal alphabet %v, every gate-level interleaving; the same with one closure serving both requests (A = B = parse·x·gate·y·write, different data); the value catalogue (%d kinds of values created before a gate and used after it): per kind two requests with different data on the same route, every gate-level interleaving, plus three requests in three fixed orders; the depth catalogue (%d kinds of call frames a request holds while parked, through Handler and HotHandler): for every limit the regenerated facts list, sums of frames in flight limit-2 … limit+2 over every ordered pair of representative kinds and own depths limit-2 … limit+2 of every kind next to parked requests; two to four requests parked 3/5 of the limit deep each + a probe for every ordered pair (parked kind, probe kind) with one of them representative (thorough: all pairs); 64 shallow requests + a probe per kind", mainAlpha, sgAlpha, len(valKinds()), len(depthKinds()))
 
 	// 3. seeded schedules: 2..6 requests, random programs, data, middlewares, interleavings
 	var mainCases, sgCases, stale []schedCase
@@ -1025,7 +1039,7 @@ func Run(c *vh.Ctx) {
 	batch(stale, "stale", 8)
 
 	// 4. parallel load in a child process
-	loadStreams(c)
+	loadStreams(c, flightLimits(factsLine))
 
 	var ks []string
 	for k := range c.Res.Histogram {
